@@ -7,6 +7,7 @@ import shutil
 import subprocess
 
 import checks_rules as R
+import checks_search as S
 import chessutil
 import vcommon
 from vcommon import Run, ToolError, log
@@ -271,7 +272,8 @@ def cli_events(binary, inputs, out_path):
     return n
 
 
-CHECKS = {"C01": c01, "C02": c02, "C04": c04, "C05": c05, "C06": c06, "C13": c13, "C14": c14, "C15": c15}
+CHECKS = {"C01": c01, "C02": c02, "C04": c04, "C05": c05, "C06": c06, "C13": c13, "C14": c14, "C15": c15,
+          "C07": S.c07, "C10": S.c10, "C11": S.c11, "C12": S.c12, "C18": S.c18}
 
 
 def setup():
